@@ -16,6 +16,7 @@ var Registry = map[string]func() *vlib.Plan{
 	"C10": C10Plan,
 	"C11": C11Plan,
 	"C12": C12Plan,
+	"C13": C13Plan,
 	"C14": C14Plan,
 	"C15": C15Plan,
 	"C16": C16Plan,
